@@ -223,7 +223,7 @@ class Exec:
         data = self.w.take_request()
         if data is None:
             return ("nothing-sent",)
-        self.reqs[self.sent] = drivers.open_request(self.cfg, data)
+        self.reqs[self.sent] = drivers.open_request(self.cfg, data, strict=False, check_mac=False)
         return None
 
     def datagram(self, d):
